@@ -68,13 +68,15 @@ func runC09() {
 	rep.Rule = "random call trees (depth<=3 quick/5 thorough; frames entered by CALL/STATICCALL/DELEGATECALL/CALLCODE, each ending in STOP/REVERT/INVALID, failure caught or propagated; bodies mix SSTORE, LOG0 and precompile calls: approveShares, delegateV2, crossChain(FX,value), transferFromShares failing after its allowance write, delegateV2 failing inside, approveShares failing before the action, write methods through non-CALL opcodes) run on the real EVM at ample gas and on a ladder of gas limits from below intrinsic to above observed usage; non-trivial = a native action started and at least one frame failed; distinct by (tree, gas limit)"
 	w := NewWorld(seed)
 	var items []string
-	for t := -2; t < ntrees; t++ {
+	for t := -3; t < ntrees; t++ {
 		g := NewGen(r, w, thorough)
 		g.rewards = t%8 == 3 // one tree in eight may trigger finding C09-1
 		g.tokenCB = t%4 == 1 // one tree in four may call the hostile token through crossChain
 		g.panicky = t%5 == 2 // one tree in five may run into a keeper panic
 		var root *Node
-		if t == -2 {
+		if t == -3 {
+			root = witnessRefusals(g) // batched-transfer fee increase with an ERC-20, executeClaim over a closed and an open IBC channel
+		} else if t == -2 {
 			root = witnessPanic(g) // executeClaim panicking after its first write, failure swallowed by the caller
 		} else if t < 0 {
 			root = witnessC091(g) // the minimal replay of finding C09-1, every run
@@ -336,6 +338,7 @@ type expect struct {
 	logs    []int
 	events  map[int]bool
 	stor    map[int64]uint64
+	refusalKept []string // calls that cannot complete in this world but returned success to the EVM
 	started bool // some native action started
 	failed  bool // some frame failed
 }
@@ -353,6 +356,9 @@ func (tc *treeCtx) expectFromTrace(root *TFrame) expect {
 			m := tc.byInput[string(f.To.Bytes())+string(f.Input)]
 			if m == nil {
 				return
+			}
+			if f.Err == "" && f.Typ == vm.CALL && !m.Kind.designedOK() {
+				ex.refusalKept = append(ex.refusalKept, fmt.Sprintf("%s (marker %d)", m.Kind, m.ID))
 			}
 			if m.Kind == MkRewards {
 				if kept && rewardsWrite {
@@ -456,6 +462,10 @@ func (tc *treeCtx) judge(rep *lib.Report, rr runRes, gas uint64, desc string, fa
 	if !intsEq(ex.natives, o.Natives) {
 		fail("monitor", "Cosmos-side effects present differ from the frames the EVM kept", "C09:native-survivors", gas,
 			fmt.Sprintf("kept frames imply %v, present %v", ex.natives, o.Natives))
+	}
+	if len(ex.refusalKept) > 0 {
+		fail("monitor", "a precompile call whose native action cannot complete (it fails half-way in this state) was reported to the EVM as successful: its frame is kept with partial effects: "+ex.refusalKept[0],
+			"C09:refusal-kept", gas, strings.Join(ex.refusalKept, "; "))
 	}
 	if len(o.Leaks) > 0 {
 		fail("monitor", "a failed precompile call left an effect: "+o.Leaks[0], "C09:leak", gas, strings.Join(o.Leaks, "; "))
@@ -673,6 +683,28 @@ func witnessPanic(g *Gen) *Node {
 		{Kind: NSStore, ID: g.id(), Slot: 2, Val: 2},
 	}
 	g.slots[0] = []uint64{1, 2}
+	g.nextAddr = 1
+	return root
+}
+
+// witnessRefusals: user -> A { increaseBridgeFee(ERC-20) on A's transfer that is already batched, ignore ;
+//   executeClaim(SendToFx over a CLOSED channel), ignore ; executeClaim(SendToFx over an OPEN channel), require ; SSTORE ; STOP }
+// The first two cannot complete: they must be reverted as a whole (ERC-20 balance, pending claim, supplies untouched).
+func witnessRefusals(g *Gen) *Node {
+	root := &Node{Kind: NFrame, ID: g.id(), CallKind: lib.CALL, Addr: 0, End: "return"}
+	mk := func(k MarkerKind, claim uint64) *Node {
+		m := &Marker{ID: g.id(), Kind: k, Ctx: 0, Claim: claim}
+		g.w.fill(m)
+		return &Node{Kind: NPCall, ID: m.ID, CallKind: lib.CALL, Caught: k != MkExecIBC, M: m}
+	}
+	root.Body = []*Node{
+		mk(MkFeeGone, 0),
+		mk(MkExecIBCClosed, g.w.ibcClosed[0]),
+		mk(MkExecIBC, g.w.ibcOpen[0]),
+		{Kind: NSStore, ID: g.id(), Slot: 1, Val: 1},
+	}
+	g.claimsIBC, g.claimsIBCClosed = 1, 1
+	g.slots[0] = []uint64{1}
 	g.nextAddr = 1
 	return root
 }
